@@ -32,6 +32,8 @@ fn main() {
         ("c18", "replay") => yv::c18::replay(&args),
         ("c16", "record") => yv::c16::record(&args),
         ("c16", "replay") => yv::c16::replay(&args),
+        ("c03", "record") => yv::c03::record(&args),
+        ("c05", "record") => yv::c05::record(&args),
         _ => { eprintln!("unknown command {:?}", &a[..2]); std::process::exit(2); }
     }
 }
